@@ -7,7 +7,7 @@ META = {
     'level': 'proof',
     'rule': 'seeded random deterministic TMs (1-4 working states, partial delta, left moves at cell 0, blank writes, loops, '
             'halting initial state) x all words of length <=3 x budgets {0,1,2,3,5,20,1000}; non-trivial = run of >=2 steps '
-            'or a verdict that changes with the budget; distinct by (machine, word)',
+            'or a verdict that changes with the budget; distinct by (machine, word); also purposeful machines run on words of length up to 12 (erase and walk back over the erased cells, a counter in cell 0 driven by left moves at the left end, a^n b^n, palindromes, binary increment, quadratic sweeps)',
     'assumptions': ['TM.valid (constructor) ; directions are L/R ; words over Sigma'],
     'trusted_base': ['Spec: Gamba/Spec/TM.lean (Step, stepN, HaltsAt)'],
 }
@@ -24,6 +24,13 @@ def cases(ctx):
             ws = ws[:3] + rng.sample(ws[3:], 5)
         if not thorough or ctx.mine(i):
             yield {'T': T, 'words': ws, 'budgets': rng.sample(BUDGETS, 4) + [1000]}
+    # purposeful machines on longer words: erase-and-walk-back, a counter in cell 0, a^n b^n, palindromes, increment, sweeps
+    for i in range(40 if not thorough else 400):
+        T, ws = gen.tm_zoo(rng)
+        if len(ws) > 8:
+            ws = rng.sample(ws, 8)
+        if not thorough or ctx.mine(i):
+            yield {'T': T, 'words': ws, 'budgets': sorted(rng.sample([3, 10, 17, 30, 60, 120, 400], 3)) + [1000]}
 
 
 def lean_requests(c):
